@@ -233,6 +233,24 @@ def run(ctx):
     ctx.note("R17.3: %d unwrap/expect sites; not on shared lookups (listed, not alarmed): %s" % (n_unwrap, listed[:12]))
     ctx.floor("R17.3", "unwrap/expect sites surveyed", n_unwrap, 3)
 
+    # ---- R17.12 `gen_range(a..b)` panics on an empty range: on reader threads (buffer choice) the bounds must be 0 and a size
+    # that the builder asserted positive, taken as it is - not a difference, quotient or remainder of it, which can be 0
+    n_gr = 0
+    for name, f in sorted(F.fns.items()):
+        for b, t in f.calls():
+            if not t["callee"].endswith("Rng::gen_range") or len(t["args"]) < 2:
+                continue
+            n_gr += 1
+            r = f.op_origin(t["args"][1])
+            d = dict(r[3]) if r[0] == "agg" and r[1].endswith("Range") else {}
+            lo, hi = d.get("start"), d.get("end")
+            ok = lo is not None and hi is not None and lo[0] == "const" and lo[1] == 0 and \
+                ((hi[0] == "const" and isinstance(hi[1], int) and hi[1] > 0) or
+                 not mentions(hi, lambda s_: s_[0] in ("binop", "unop") or (s_[0] == "call" and not s_[1].endswith(("::len", "::clone")))))
+            ctx.check(ok, "R17.12", "%s|gen-range-non-empty" % name,
+                      "a random index is drawn from 0..n with n a positive constant or a configured size used as it is (asserted > 0 by the builder, R17.11)", f.where(b), fmt(r)[:120])
+    ctx.note("R17.12: %d gen_range call(s)" % n_gr)
+
     # ---- R17.6 std APIs that panic on a zero size/step need a non-zero argument ------------------------------
     ZERO_PANICS = ("::chunks", "::chunks_exact", "::chunks_mut", "::chunks_exact_mut", "::rchunks", "::rchunks_mut", "::windows", "::step_by")
     n_zero = 0
@@ -317,6 +335,15 @@ def run(ctx):
     for o in ctx.own_of("c14"):
         if o["rule"] in ("R14.9",) or (o["rule"] == "R14.5" and "same-cells" in o["key"]):
             ctx._add(o["status"], "R17.10", o["key"], o["desc"] + " [an out-of-range position panics the consumer thread]", o["where"], o["detail"])
+
+    # ---- R17.13 a background worker that waits forever is as lost as one that panicked: no lock-order cycle (or same-class
+    # nested acquisition, e.g. a read lock taken again while held - fatal with a writer waiting) involves code a background
+    # thread runs
+    import c18
+    bad_cycle, bad_self = c18.cycle_through(ctx, sorted(F.spawn_closures()))
+    ctx.check(bad_cycle is None and not bad_self, "R17.13", "no-lock-cycle-through-background-threads",
+              "no lock-order cycle or nested same-class acquisition involves code reachable from the command worker, the access consumer or the sweeper",
+              detail=("cycle %s" % " -> ".join(bad_cycle) if bad_cycle else "") + (" self %s" % bad_self[:2] if bad_self else ""))
 
     # ---- R17.8 (= C08 R08.7) the upsert's "does the key exist" agrees with what reads report -------------------------
     # put_or_update asserts that a request without a value only ever *updates*: whether it updates is decided by the
